@@ -170,6 +170,44 @@ def check_pbc(ck):
             worst = max(worst, compare(ck, S_P, dict(inp, call="GTOval_sph_deriv1", kpoint=kk), g[kk], ref5[kk][:4], 1e-7))
         if it < 2:
             ck.sample({"pbc_atoms": [a[0] for a in cell._atom], "nk": len(kpts), "lmax": lmax})
+    # directed case (own random stream): two elements whose FIRST shells have very different ranges — a tight s shell on the first atom, diffuse s and p
+    # shells on the second — evaluated 1.5-4.5 bohr from the second atom, where only its diffuse shells contribute. A per-shell cutoff looked up at
+    # the wrong index (without the atom's offset) silences exactly these contributions; random basis sets expose it only for some seeds.
+    import pyscf.pbc.gto
+    drng = np.random.default_rng(424242)
+    for order in (0, 1):
+        tight, diffuse = [[0, [8.0, 1.0]], [1, [6.0, 1.0]]], [[0, [0.30, 1.0]], [1, [0.45, 1.0]], [2, [0.6, 1.0]]]
+        atoms = [("H", (0.1, 0.2, 0.0)), ("He", (2.6, 2.1, 1.7))]
+        basis = {"H": tight, "He": diffuse}
+        if order:
+            atoms = atoms[::-1]
+        lat = np.array([[6.0, 0.0, 0.0], [0.8, 6.2, 0.0], [0.3, 0.5, 6.4]])
+        cell = pyscf.pbc.gto.M(a=lat, atom=[(el, tuple(c)) for el, c in atoms], basis=basis, unit="B", spin=1, verbose=0)
+        he = np.array(dict(atoms)["He"])
+        dirs = drng.normal(size=(24, 3))
+        dirs /= np.linalg.norm(dirs, axis=1)[:, None]
+        raw = he + dirs * drng.uniform(1.5, 4.5, size=(24, 1))
+        pts = ((raw @ np.linalg.inv(lat)) % 1.0) @ lat
+        kpts = np.array([[0.0, 0.0, 0.0], (np.array([0.25, -0.4, 0.1]) @ (2 * np.pi * np.linalg.inv(lat).T))])
+        prec = 1e-9
+        inp = {"lattice": lat.tolist(), "atoms": [(el, list(map(float, c))) for el, c in atoms], "basis": basis, "kpts": kpts.tolist(), "eval_gto_precision": prec, "directed": "first shells of different range"}
+
+        def run_d():
+            ev = npbc.PeriodicAtomicOrbitalEvaluator(cell, kpts=kpts, eval_gto_precision=prec)
+            return np.asarray(ev.eval_gto("GTOval_sph_deriv2", pts)), np.asarray(ev.eval_gto("GTOval_sph", pts)), np.asarray(ev.eval_gto("GTOval_sph_deriv1", pts))
+        ok, res = ck.guarded(run_d, "pbc", S_P, inp)
+        ck.case(("pbc_directed", order), nontrivial=True)
+        if not ok:
+            continue
+        l, v, g = res
+        cell.precision = 1e-12
+        cell.rcut = max(cell.rcut, 40.0)
+        ref = np.asarray(cell.pbc_eval_gto("GTOval_sph_deriv2", pts, kpts=kpts))
+        ref5 = np.stack([ref[:, 0], ref[:, 1], ref[:, 2], ref[:, 3], ref[:, 4] + ref[:, 7] + ref[:, 9]], axis=1)
+        for kk in range(len(kpts)):
+            worst = max(worst, compare(ck, S_P, dict(inp, call="GTOval_sph_deriv2", kpoint=kk), l[kk], ref5[kk], 1e-7))
+            worst = max(worst, compare(ck, S_P, dict(inp, call="GTOval_sph", kpoint=kk), v[kk][None], ref5[kk][:1], 1e-7))
+            worst = max(worst, compare(ck, S_P, dict(inp, call="GTOval_sph_deriv1", kpoint=kk), g[kk], ref5[kk][:4], 1e-7))
     ck.stats["pbc_worst_scaled_error"] = worst
 
 
